@@ -28,7 +28,7 @@ def main():
             t = subprocess.run("/venv/bin/python -m pytest -q -p no:cacheprovider --timeout=900 "
                                "--deselect test/test_act_one.py::TestActOneInterface::test_norm_none "
                                "--deselect test/test_act_one.py::TestActOneSum::test_base 2>&1 | grep -E 'FAILED|passed|failed' | tail -8",
-                               shell=True, cwd=dst, capture_output=True, text=True, env={**os.environ, "PYTHONPATH": dst})
+                               shell=True, cwd=dst, capture_output=True, text=True, env={**os.environ, "PYTHONPATH": dst, "OMP_NUM_THREADS": "2", "OPENBLAS_NUM_THREADS": "2"})
             print("repo tests on mutant:", " ; ".join(t.stdout.strip().splitlines()) if t.stdout.strip() else t.stderr[-300:])
         rc_all = 0
         for pid in ids:
